@@ -70,7 +70,7 @@ def decide_equal(it, a, b, extra=(), timeout_ms=20000):
 
 # ------------------------------------------------------------------------------------------------ node replay
 EDGE_POOL = [0, {'$': '-0'}, 1, 2, -1, '', 'a', '1', {'$': 'NaN'}, None, {'$': 'undefined'}, True, False, [], [1, 2], {'$': 'obj', 'v': {}},
-             {'$': 'obj', 'v': {'b': 1, 'f': {'$': 'fn'}}}, {'$': 'fn'}, 7, 3.5]
+             {'$': 'obj', 'v': {'b': 1, 'f': {'$': 'fn'}}}, {'$': 'fn'}, 7, 3.5, 'constructor', 'toString']
 
 
 def node_eval(gen_object, runtime, jobs, timeout=120):
